@@ -12,7 +12,9 @@ import (
 	"math"
 	"math/big"
 	"reflect"
+	"sort"
 	"strconv"
+	"strings"
 
 	"github.com/shiwano/errdef"
 	"github.com/shiwano/errdef/resolver"
@@ -268,6 +270,40 @@ func c11JSONText(x any) (string, bool) {
 
 // ---------- one case ----------
 
+// keys of the checked field's name with other types than the target's
+var c11Probes = func() []errdef.FieldKey {
+	a, _ := errdef.DefineField[int64](c11Field)
+	b, _ := errdef.DefineField[float64](c11Field)
+	c, _ := errdef.DefineField[uint64](c11Field)
+	d, _ := errdef.DefineField[string](c11Field)
+	e, _ := errdef.DefineField[any](c11Field)
+	f, _ := errdef.DefineField[float32](c11Field)
+	g, _ := errdef.DefineField[bool](c11Field)
+	h, _ := errdef.DefineField[*int](c11Field)
+	return []errdef.FieldKey{a.Key(), b.Key(), c.Key(), d.Key(), e.Key(), f.Key(), g.Key(), h.Key()}
+}()
+
+// c11State: what a restored error shows of its fields
+func c11State(ue unmarshaler.UnmarshaledError, key errdef.FieldKey) string {
+	var b strings.Builder
+	fmt.Fprintf(&b, "len=%d unknown=[", ue.Fields().Len())
+	var us []string
+	for k, v := range ue.UnknownFields() {
+		us = append(us, fmt.Sprintf("%s:%T(%v)", k, v, v))
+	}
+	sort.Strings(us)
+	b.WriteString(strings.Join(us, ","))
+	b.WriteString("] all=[")
+	for k, v := range ue.Fields().All() {
+		fmt.Fprintf(&b, "%s:%T(%v),", k.String(), v.Value(), v.Value())
+	}
+	b.WriteString("]")
+	if v, ok := ue.Fields().Get(key); ok {
+		fmt.Fprintf(&b, " get=%T(%v)", v.Value(), v.Value())
+	}
+	return b.String()
+}
+
 func runC11(d c11Desc) Case {
 	if d.T < 0 || d.T >= len(c11Targets) || d.S >= len(c11Types) {
 		d = c11Desc{T: 0, S: -1}
@@ -316,6 +352,20 @@ func runC11(d c11Desc) Case {
 			unknown[k] = v
 		}
 		uv, inUnknown := unknown[c11Field]
+		// lookups through OTHER keys of the same name (wider or unrelated types) are inspections:
+		// afterwards the restored error must show what it showed before
+		before := c11State(ue, tgt.Key)
+		for _, pk := range c11Probes {
+			func() {
+				defer func() { _ = recover() }()
+				_, _ = ue.Fields().Get(pk)
+			}()
+		}
+		_, _ = tgt.Ext(ue)
+		if after := c11State(ue, tgt.Key); after != before {
+			obs, obsTxt = "OWeird", "typed lookups through other keys changed the restored error: "+before+" -> "+after
+			return
+		}
 		switch {
 		case eok != fok || len(unknown) > 1 || (len(unknown) == 1 && !inUnknown) || ue.Fields().Len() != 1:
 			obs, obsTxt = "OWeird", fmt.Sprintf("extractor ok=%v, Fields().Get ok=%v, %d unknown fields, Len=%d", eok, fok, len(unknown), ue.Fields().Len())
